@@ -265,6 +265,77 @@ Proof.
         try (unfold lp in *; rewrite Q1, Q3; exact Hcap). }
   unfold wp in W. destruct (parse_rest fuel s) as [[b s']| |]; auto.
 Qed.
+(** ---- the same chain with a postcondition: an invariant [K] of the tree that the last three passes preserve, an invariant [KI]
+     of the resolve loop (it implies [KS]) ---- *)
+Section Post.
+Variable K : T -> ghost -> Prop.
+Hypothesis K_move : Kmove K.
+Hypothesis K_upd : Kupd K.
+Hypothesis K_walk : forall f4 pf s g s1 g1, WI s g -> parseDeferredBlocks f4 pf 0 s = Ok (ROk, s1) -> WI s1 g1 -> wstep s g s1 g1 -> TM NoX s1 g1 ->
+  K (p_tree s) g -> K (p_tree s1) g1.
+
+Definition tpost (b : bool) (s' : pstate) : Prop :=
+  exists g', R (p_tree s') g' /\ info_valid (p_tree s') /\ pool_ok (p_tables s') (p_tree s') /\
+    (b = true -> glive g' 0 /\ groot g' 0 /\ typed (p_tree s') /\ K (p_tree s') g').
+
+Theorem tail_post : forall f4 pf f5 f6 s g,
+  R (p_tree s) g -> info_valid (p_tree s) -> rok (p_r s) -> Forall (glive g) (p_scopeStack s) -> IV s ->
+  glive g 0 -> groot g 0 -> TM NoX s g -> typed (p_tree s) -> PEND s g ->
+  lp s + lp s * (8 * r_len (p_r s) + 3) + 4 <= InvalidIndex -> K (p_tree s) g ->
+  match parse_tail f4 pf f5 f6 s with
+  | Ok (b, s') => tpost b s'
+  | Panic => False
+  | OutOfFuel => True
+  end.
+Proof.
+  intros f4 pf f5 f6 s g HR Hi Hrk Hsc I0 H0 Hroot HTM Hty HP Hcap HK.
+  assert (H : WI s g) by (constructor; auto).
+  destruct (dcnt_bounded s g H HP 0 H0) as (n & Hd & Hn).
+  apply (deferred_tail_post tbls K K_move K_upd f4 pf f5 f6 n s g); auto; [nia|].
+  intros s1 g1 E1 H1 S1 T1. apply (K_walk f4 pf s g s1 g1 H E1 H1 S1 T1 HK).
+Qed.
+
+Variable KI : pstate -> ghost -> Prop.
+Hypothesis KI_KS : forall s g, KI s g -> KS s g.
+Hypothesis KI_loop : forall wf fuel s g, MI KI NoX s g ->
+  wp True (resolve_loop fuel wf) s (fun _ s' => exists g', MI KI NoX s' g').
+Hypothesis K_start : forall s g, MI KI NoX s g -> K (p_tree s) g.
+
+Theorem rest_post : forall fuel s g,
+  R (p_tree s) g -> info_valid (p_tree s) -> rok (p_r s) -> p_scopeStack s = [] -> IV s ->
+  glive g 0 -> groot g 0 -> is_sb s 0 ->
+  tyS NoX (p_tables s) (p_handle s) (p_tree s) g ->
+  KI s g -> typed (p_tree s) ->
+  lp s + lp s * (8 * r_len (p_r s) + 3) + 4 <= InvalidIndex ->
+  match parse_rest fuel s with
+  | Ok (b, s') => tpost b s'
+  | Panic => False
+  | OutOfFuel => True
+  end.
+Proof.
+  intros fuel s g HR Hi Hrk Hst I0 H0 Hroot Hsb Hty HKI Htyp Hcap.
+  assert (Hpool : pool_ok (p_tables s) (p_tree s)) by (rewrite (inv_tbls _ _ I0); apply (inv_pool _ _ I0)).
+  assert (HM : MI KI NoX s g).
+  { constructor; auto. constructor; auto. }
+  assert (W : wp True (parse_rest fuel) s tpost).
+  { unfold parse_rest.
+    apply (wp_bind_inv tbls _ _ _ _ _ I0); [apply hoare_resolve_loop|].
+    eapply wp_weaken; [apply (wp_and_pc _ _ _ _ (fun _ s' => (p_r s' = p_r s /\ p_scopeStack s' = p_scopeStack s /\
+                                  length (t_pool (p_tree s')) = length (t_pool (p_tree s))) /\ typed (p_tree s'))
+                         (KI_loop fuel fuel s g HM))|auto|].
+    - intros a s' E. split; [apply (resolve_loop_quiet fuel fuel s a s' E)|apply (resolve_loop_tyk fuel fuel s a s' E Htyp)].
+    - intros r3 s1 ((g1 & HM1) & (Q1 & Q2 & Q3) & Ht1) I1.
+      pose proof (K_start s1 g1 HM1) as HK1.
+      destruct HM1 as [[A B C] D E F G HKI1]. destruct (KI_KS _ _ HKI1) as (K1 & K2).
+      destruct (pres_eqb r3 ROk); cbn [negb].
+      2:{ apply wp_ret. exists g1. split; [exact A|]. split; [exact B|]. split; [exact C|discriminate]. }
+      pose proof (tail_post fuel fuel fuel fuel s1 g1 A B) as T.
+      unfold wp. destruct (parse_tail fuel fuel fuel fuel s1) as [[b s']| |] eqn:Et; auto; apply T; auto;
+        try (rewrite Q1; exact Hrk); try (rewrite Q2, Hst; constructor); try (apply TM2_TM; exact K1);
+        try (unfold lp in *; rewrite Q1, Q3; exact Hcap). }
+  unfold wp in W. destruct (parse_rest fuel s) as [[b s']| |]; auto.
+Qed.
+End Post.
 End Chain.
 
 (** the resolve loop alone: it keeps [TM2], [PEND] and the typing of the name-path objects *)
